@@ -9,6 +9,7 @@ import sys
 
 _mon = sys.monitoring
 _TOOL = _mon.DEBUGGER_ID
+OUTER_TOOL = _mon.PROFILER_ID     # for the whole-case budget that confirms a wall-clock alarm
 
 
 class BudgetExceeded(BaseException):
@@ -18,29 +19,40 @@ class BudgetExceeded(BaseException):
 class LineBudget:
     """with LineBudget(n) as b: ...   b.used is the number of line events."""
 
-    def __init__(self, budget):
+    def __init__(self, budget, tool=None, jumps=False):
+        self.jumps = jumps          # also count JUMP events, so that a loop written on one line is bounded too
         self.budget = budget
         self.used = 0
         self.exceeded = False
+        self.tool = _TOOL if tool is None else tool
+
+    def _cbj(self, code, offset, dest):
+        return self._cb(code, 0)
 
     def _cb(self, code, line):
         self.used += 1
         if self.used > self.budget:
             # disarm before raising, or the unwinding frames re-enter the callback
-            _mon.set_events(_TOOL, 0)
+            _mon.set_events(self.tool, 0)
             self.exceeded = True
             raise BudgetExceeded()
 
     def __enter__(self):
-        _mon.use_tool_id(_TOOL, "verif-steps")
-        _mon.register_callback(_TOOL, _mon.events.LINE, self._cb)
-        _mon.set_events(_TOOL, _mon.events.LINE)
+        _mon.use_tool_id(self.tool, "verif-steps-%d" % self.tool)
+        _mon.register_callback(self.tool, _mon.events.LINE, self._cb)
+        ev = _mon.events.LINE
+        if self.jumps:
+            _mon.register_callback(self.tool, _mon.events.JUMP, self._cbj)
+            ev |= _mon.events.JUMP
+        _mon.set_events(self.tool, ev)
         return self
 
     def __exit__(self, et, ev, tb):
-        _mon.set_events(_TOOL, 0)
-        _mon.register_callback(_TOOL, _mon.events.LINE, None)
-        _mon.free_tool_id(_TOOL)
+        _mon.set_events(self.tool, 0)
+        _mon.register_callback(self.tool, _mon.events.LINE, None)
+        if self.jumps:
+            _mon.register_callback(self.tool, _mon.events.JUMP, None)
+        _mon.free_tool_id(self.tool)
         return False
 
 
